@@ -42,9 +42,9 @@ pub const MAXLEN: usize = 128;
 /// W + R + position independence of the model stream (c03_ms_rebase_*) give the round trip at
 /// any offset: the codec only sees the stream through the trait methods, and those return the
 /// same results at (bits, off) and at (bits re-based by off, 0).
-pub fn codec_step<E: En, const T: bool, C: Code<E, T>, S: Src, const MODE: u8>(s: &mut S) {
+pub fn codec_step<E: En, const T: bool, C: Code<E, T>, S: Src, const MODE: u8, const OM: usize>(s: &mut S) {
     let (v, p) = C::params(s);
-    let off = if MODE == 1 { 0 } else { s.usize_in(0, 64) };
+    let off = if MODE == 1 { 0 } else { s.usize_in(0, OM) };
     let prefix = if MODE == 1 { 0 } else { s.u64() };
     let sentinel = s.u64();
     let i = s.usize();
@@ -502,134 +502,160 @@ crate::harnesses! {
     c03_ms_selfcheck_le (quick, "LE", "model stream self-check: off<=64, n<=64, unary<=60") => ms_selfcheck::<LE, _>;
     c03_ms_rebase_be (quick, "BE", "model stream lemma: any content, any cursor, any op") => ms_rebase_lemma::<BE, _>;
     c03_ms_rebase_le (quick, "LE", "model stream lemma: any content, any cursor, any op") => ms_rebase_lemma::<LE, _>;
-    c03_w_gamma_be (quick, "BE stream, tables off", "v<=2^64-2; write at symbolic offset<=64: bits vs definition, lengths") => codec_step::<BE, false, Gamma, _, 0>;
-    c03_r_gamma_be (quick, "BE stream, tables off", "v<=2^64-2; write at offset 0 then read: value, consumption, sentinel") => codec_step::<BE, false, Gamma, _, 1>;
-    c03_rt_gamma_be (thorough, "BE stream, tables off", "v<=2^64-2; full round trip in place at symbolic offset<=64") => codec_step::<BE, false, Gamma, _, 2>;
-    c03_w_gamma_le (quick, "LE stream, tables off", "v<=2^64-2; write at symbolic offset<=64: bits vs definition, lengths") => codec_step::<LE, false, Gamma, _, 0>;
-    c03_r_gamma_le (quick, "LE stream, tables off", "v<=2^64-2; write at offset 0 then read: value, consumption, sentinel") => codec_step::<LE, false, Gamma, _, 1>;
-    c03_rt_gamma_le (thorough, "LE stream, tables off", "v<=2^64-2; full round trip in place at symbolic offset<=64") => codec_step::<LE, false, Gamma, _, 2>;
-    c03_w_gamma_tab_be (quick, "BE stream, tables on", "v<=2^64-2; write at symbolic offset<=64: bits vs definition, lengths") => codec_step::<BE, true, Gamma, _, 0>;
-    c03_r_gamma_tab_be (quick, "BE stream, tables on", "v<=2^64-2; write at offset 0 then read: value, consumption, sentinel") => codec_step::<BE, true, Gamma, _, 1>;
-    c03_rt_gamma_tab_be (thorough, "BE stream, tables on", "v<=2^64-2; full round trip in place at symbolic offset<=64") => codec_step::<BE, true, Gamma, _, 2>;
-    c03_w_gamma_tab_le (quick, "LE stream, tables on", "v<=2^64-2; write at symbolic offset<=64: bits vs definition, lengths") => codec_step::<LE, true, Gamma, _, 0>;
-    c03_r_gamma_tab_le (quick, "LE stream, tables on", "v<=2^64-2; write at offset 0 then read: value, consumption, sentinel") => codec_step::<LE, true, Gamma, _, 1>;
-    c03_rt_gamma_tab_le (thorough, "LE stream, tables on", "v<=2^64-2; full round trip in place at symbolic offset<=64") => codec_step::<LE, true, Gamma, _, 2>;
-    c03_w_delta_be (quick, "BE stream, tables off", "v<=2^64-2; write at symbolic offset<=64: bits vs definition, lengths") => codec_step::<BE, false, Delta, _, 0>;
-    c03_r_delta_be (quick, "BE stream, tables off", "v<=2^64-2; write at offset 0 then read: value, consumption, sentinel") => codec_step::<BE, false, Delta, _, 1>;
-    c03_rt_delta_be (thorough, "BE stream, tables off", "v<=2^64-2; full round trip in place at symbolic offset<=64") => codec_step::<BE, false, Delta, _, 2>;
-    c03_w_delta_le (quick, "LE stream, tables off", "v<=2^64-2; write at symbolic offset<=64: bits vs definition, lengths") => codec_step::<LE, false, Delta, _, 0>;
-    c03_r_delta_le (quick, "LE stream, tables off", "v<=2^64-2; write at offset 0 then read: value, consumption, sentinel") => codec_step::<LE, false, Delta, _, 1>;
-    c03_rt_delta_le (thorough, "LE stream, tables off", "v<=2^64-2; full round trip in place at symbolic offset<=64") => codec_step::<LE, false, Delta, _, 2>;
-    c03_w_delta_tab_be (quick, "BE stream, tables on", "v<=2^64-2; write at symbolic offset<=64: bits vs definition, lengths") => codec_step::<BE, true, Delta, _, 0>;
-    c03_r_delta_tab_be (quick, "BE stream, tables on", "v<=2^64-2; write at offset 0 then read: value, consumption, sentinel") => codec_step::<BE, true, Delta, _, 1>;
-    c03_rt_delta_tab_be (thorough, "BE stream, tables on", "v<=2^64-2; full round trip in place at symbolic offset<=64") => codec_step::<BE, true, Delta, _, 2>;
-    c03_w_delta_tab_le (quick, "LE stream, tables on", "v<=2^64-2; write at symbolic offset<=64: bits vs definition, lengths") => codec_step::<LE, true, Delta, _, 0>;
-    c03_r_delta_tab_le (quick, "LE stream, tables on", "v<=2^64-2; write at offset 0 then read: value, consumption, sentinel") => codec_step::<LE, true, Delta, _, 1>;
-    c03_rt_delta_tab_le (thorough, "LE stream, tables on", "v<=2^64-2; full round trip in place at symbolic offset<=64") => codec_step::<LE, true, Delta, _, 2>;
+    c03_w_gamma_be (quick, "BE stream, tables off", "v<=2^64-2; write at symbolic offset 0..=7 (every bit alignment): bits vs definition, lengths") => codec_step::<BE, false, Gamma, _, 0, 7>;
+    c03_r_gamma_be (quick, "BE stream, tables off", "v<=2^64-2; write at offset 0 then read: value, consumption, sentinel") => codec_step::<BE, false, Gamma, _, 1, 0>;
+    c03_w64_gamma_be (thorough, "BE stream, tables off", "v<=2^64-2; write at symbolic offset 0..=64: bits vs definition, lengths") => codec_step::<BE, false, Gamma, _, 0, 64>;
+    c03_rt_gamma_be (thorough, "BE stream, tables off", "v<=2^64-2; full round trip in place at symbolic offset 0..=64") => codec_step::<BE, false, Gamma, _, 2, 64>;
+    c03_w_gamma_le (quick, "LE stream, tables off", "v<=2^64-2; write at symbolic offset 0..=7 (every bit alignment): bits vs definition, lengths") => codec_step::<LE, false, Gamma, _, 0, 7>;
+    c03_r_gamma_le (quick, "LE stream, tables off", "v<=2^64-2; write at offset 0 then read: value, consumption, sentinel") => codec_step::<LE, false, Gamma, _, 1, 0>;
+    c03_w64_gamma_le (thorough, "LE stream, tables off", "v<=2^64-2; write at symbolic offset 0..=64: bits vs definition, lengths") => codec_step::<LE, false, Gamma, _, 0, 64>;
+    c03_rt_gamma_le (thorough, "LE stream, tables off", "v<=2^64-2; full round trip in place at symbolic offset 0..=64") => codec_step::<LE, false, Gamma, _, 2, 64>;
+    c03_w_gamma_tab_be (quick, "BE stream, tables on", "v<=2^64-2; write at symbolic offset 0..=7 (every bit alignment): bits vs definition, lengths") => codec_step::<BE, true, Gamma, _, 0, 7>;
+    c03_r_gamma_tab_be (quick, "BE stream, tables on", "v<=2^64-2; write at offset 0 then read: value, consumption, sentinel") => codec_step::<BE, true, Gamma, _, 1, 0>;
+    c03_w64_gamma_tab_be (thorough, "BE stream, tables on", "v<=2^64-2; write at symbolic offset 0..=64: bits vs definition, lengths") => codec_step::<BE, true, Gamma, _, 0, 64>;
+    c03_rt_gamma_tab_be (thorough, "BE stream, tables on", "v<=2^64-2; full round trip in place at symbolic offset 0..=64") => codec_step::<BE, true, Gamma, _, 2, 64>;
+    c03_w_gamma_tab_le (quick, "LE stream, tables on", "v<=2^64-2; write at symbolic offset 0..=7 (every bit alignment): bits vs definition, lengths") => codec_step::<LE, true, Gamma, _, 0, 7>;
+    c03_r_gamma_tab_le (quick, "LE stream, tables on", "v<=2^64-2; write at offset 0 then read: value, consumption, sentinel") => codec_step::<LE, true, Gamma, _, 1, 0>;
+    c03_w64_gamma_tab_le (thorough, "LE stream, tables on", "v<=2^64-2; write at symbolic offset 0..=64: bits vs definition, lengths") => codec_step::<LE, true, Gamma, _, 0, 64>;
+    c03_rt_gamma_tab_le (thorough, "LE stream, tables on", "v<=2^64-2; full round trip in place at symbolic offset 0..=64") => codec_step::<LE, true, Gamma, _, 2, 64>;
+    c03_w_delta_be (quick, "BE stream, tables off", "v<=2^64-2; write at symbolic offset 0..=7 (every bit alignment): bits vs definition, lengths") => codec_step::<BE, false, Delta, _, 0, 7>;
+    c03_r_delta_be (quick, "BE stream, tables off", "v<=2^64-2; write at offset 0 then read: value, consumption, sentinel") => codec_step::<BE, false, Delta, _, 1, 0>;
+    c03_w64_delta_be (thorough, "BE stream, tables off", "v<=2^64-2; write at symbolic offset 0..=64: bits vs definition, lengths") => codec_step::<BE, false, Delta, _, 0, 64>;
+    c03_rt_delta_be (thorough, "BE stream, tables off", "v<=2^64-2; full round trip in place at symbolic offset 0..=64") => codec_step::<BE, false, Delta, _, 2, 64>;
+    c03_w_delta_le (quick, "LE stream, tables off", "v<=2^64-2; write at symbolic offset 0..=7 (every bit alignment): bits vs definition, lengths") => codec_step::<LE, false, Delta, _, 0, 7>;
+    c03_r_delta_le (quick, "LE stream, tables off", "v<=2^64-2; write at offset 0 then read: value, consumption, sentinel") => codec_step::<LE, false, Delta, _, 1, 0>;
+    c03_w64_delta_le (thorough, "LE stream, tables off", "v<=2^64-2; write at symbolic offset 0..=64: bits vs definition, lengths") => codec_step::<LE, false, Delta, _, 0, 64>;
+    c03_rt_delta_le (thorough, "LE stream, tables off", "v<=2^64-2; full round trip in place at symbolic offset 0..=64") => codec_step::<LE, false, Delta, _, 2, 64>;
+    c03_w_delta_tab_be (quick, "BE stream, tables on", "v<=2^64-2; write at symbolic offset 0..=7 (every bit alignment): bits vs definition, lengths") => codec_step::<BE, true, Delta, _, 0, 7>;
+    c03_r_delta_tab_be (quick, "BE stream, tables on", "v<=2^64-2; write at offset 0 then read: value, consumption, sentinel") => codec_step::<BE, true, Delta, _, 1, 0>;
+    c03_w64_delta_tab_be (thorough, "BE stream, tables on", "v<=2^64-2; write at symbolic offset 0..=64: bits vs definition, lengths") => codec_step::<BE, true, Delta, _, 0, 64>;
+    c03_rt_delta_tab_be (thorough, "BE stream, tables on", "v<=2^64-2; full round trip in place at symbolic offset 0..=64") => codec_step::<BE, true, Delta, _, 2, 64>;
+    c03_w_delta_tab_le (quick, "LE stream, tables on", "v<=2^64-2; write at symbolic offset 0..=7 (every bit alignment): bits vs definition, lengths") => codec_step::<LE, true, Delta, _, 0, 7>;
+    c03_r_delta_tab_le (quick, "LE stream, tables on", "v<=2^64-2; write at offset 0 then read: value, consumption, sentinel") => codec_step::<LE, true, Delta, _, 1, 0>;
+    c03_w64_delta_tab_le (thorough, "LE stream, tables on", "v<=2^64-2; write at symbolic offset 0..=64: bits vs definition, lengths") => codec_step::<LE, true, Delta, _, 0, 64>;
+    c03_rt_delta_tab_le (thorough, "LE stream, tables on", "v<=2^64-2; full round trip in place at symbolic offset 0..=64") => codec_step::<LE, true, Delta, _, 2, 64>;
     #[kani::unwind(8)]
-    c03_w_omega_be (quick, "BE stream", "v<=2^64-2; write at symbolic offset<=64: bits vs definition, lengths") => codec_step::<BE, false, Omega, _, 0>;
+    c03_w_omega_be (quick, "BE stream", "v<=2^64-2; write at symbolic offset 0..=7 (every bit alignment): bits vs definition, lengths") => codec_step::<BE, false, Omega, _, 0, 7>;
     #[kani::unwind(8)]
-    c03_r_omega_be (quick, "BE stream", "v<=2^64-2; write at offset 0 then read: value, consumption, sentinel") => codec_step::<BE, false, Omega, _, 1>;
+    c03_r_omega_be (quick, "BE stream", "v<=2^64-2; write at offset 0 then read: value, consumption, sentinel") => codec_step::<BE, false, Omega, _, 1, 0>;
     #[kani::unwind(8)]
-    c03_rt_omega_be (thorough, "BE stream", "v<=2^64-2; full round trip in place at symbolic offset<=64") => codec_step::<BE, false, Omega, _, 2>;
+    c03_w64_omega_be (thorough, "BE stream", "v<=2^64-2; write at symbolic offset 0..=64: bits vs definition, lengths") => codec_step::<BE, false, Omega, _, 0, 64>;
     #[kani::unwind(8)]
-    c03_w_omega_le (quick, "LE stream", "v<=2^64-2; write at symbolic offset<=64: bits vs definition, lengths") => codec_step::<LE, false, Omega, _, 0>;
+    c03_rt_omega_be (thorough, "BE stream", "v<=2^64-2; full round trip in place at symbolic offset 0..=64") => codec_step::<BE, false, Omega, _, 2, 64>;
     #[kani::unwind(8)]
-    c03_r_omega_le (quick, "LE stream", "v<=2^64-2; write at offset 0 then read: value, consumption, sentinel") => codec_step::<LE, false, Omega, _, 1>;
+    c03_w_omega_le (quick, "LE stream", "v<=2^64-2; write at symbolic offset 0..=7 (every bit alignment): bits vs definition, lengths") => codec_step::<LE, false, Omega, _, 0, 7>;
     #[kani::unwind(8)]
-    c03_rt_omega_le (thorough, "LE stream", "v<=2^64-2; full round trip in place at symbolic offset<=64") => codec_step::<LE, false, Omega, _, 2>;
-    c03_w_zeta_be (quick, "BE stream", "k in 1..=63, v<=2^64-2; definition checked where (h+1)k<=64; write at symbolic offset<=64: bits vs definition, lengths") => codec_step::<BE, false, Zeta, _, 0>;
-    c03_r_zeta_be (quick, "BE stream", "k in 1..=63, v<=2^64-2; definition checked where (h+1)k<=64; write at offset 0 then read: value, consumption, sentinel") => codec_step::<BE, false, Zeta, _, 1>;
-    c03_rt_zeta_be (thorough, "BE stream", "k in 1..=63, v<=2^64-2; definition checked where (h+1)k<=64; full round trip in place at symbolic offset<=64") => codec_step::<BE, false, Zeta, _, 2>;
-    c03_w_zeta_le (quick, "LE stream", "k in 1..=63, v<=2^64-2; definition checked where (h+1)k<=64; write at symbolic offset<=64: bits vs definition, lengths") => codec_step::<LE, false, Zeta, _, 0>;
-    c03_r_zeta_le (quick, "LE stream", "k in 1..=63, v<=2^64-2; definition checked where (h+1)k<=64; write at offset 0 then read: value, consumption, sentinel") => codec_step::<LE, false, Zeta, _, 1>;
-    c03_rt_zeta_le (thorough, "LE stream", "k in 1..=63, v<=2^64-2; definition checked where (h+1)k<=64; full round trip in place at symbolic offset<=64") => codec_step::<LE, false, Zeta, _, 2>;
-    c03_w_zeta3_be (quick, "BE stream, tables off", "v<=2^64-2; write at symbolic offset<=64: bits vs definition, lengths") => codec_step::<BE, false, Zeta3, _, 0>;
-    c03_r_zeta3_be (quick, "BE stream, tables off", "v<=2^64-2; write at offset 0 then read: value, consumption, sentinel") => codec_step::<BE, false, Zeta3, _, 1>;
-    c03_rt_zeta3_be (thorough, "BE stream, tables off", "v<=2^64-2; full round trip in place at symbolic offset<=64") => codec_step::<BE, false, Zeta3, _, 2>;
-    c03_w_zeta3_le (quick, "LE stream, tables off", "v<=2^64-2; write at symbolic offset<=64: bits vs definition, lengths") => codec_step::<LE, false, Zeta3, _, 0>;
-    c03_r_zeta3_le (quick, "LE stream, tables off", "v<=2^64-2; write at offset 0 then read: value, consumption, sentinel") => codec_step::<LE, false, Zeta3, _, 1>;
-    c03_rt_zeta3_le (thorough, "LE stream, tables off", "v<=2^64-2; full round trip in place at symbolic offset<=64") => codec_step::<LE, false, Zeta3, _, 2>;
-    c03_w_zeta3_tab_be (quick, "BE stream, tables on", "v<=2^64-2; write at symbolic offset<=64: bits vs definition, lengths") => codec_step::<BE, true, Zeta3, _, 0>;
-    c03_r_zeta3_tab_be (quick, "BE stream, tables on", "v<=2^64-2; write at offset 0 then read: value, consumption, sentinel") => codec_step::<BE, true, Zeta3, _, 1>;
-    c03_rt_zeta3_tab_be (thorough, "BE stream, tables on", "v<=2^64-2; full round trip in place at symbolic offset<=64") => codec_step::<BE, true, Zeta3, _, 2>;
-    c03_w_zeta3_tab_le (quick, "LE stream, tables on", "v<=2^64-2; write at symbolic offset<=64: bits vs definition, lengths") => codec_step::<LE, true, Zeta3, _, 0>;
-    c03_r_zeta3_tab_le (quick, "LE stream, tables on", "v<=2^64-2; write at offset 0 then read: value, consumption, sentinel") => codec_step::<LE, true, Zeta3, _, 1>;
-    c03_rt_zeta3_tab_le (thorough, "LE stream, tables on", "v<=2^64-2; full round trip in place at symbolic offset<=64") => codec_step::<LE, true, Zeta3, _, 2>;
-    c03_w_pi_be (quick, "BE stream", "k in 0..=63, v<=2^64-2; write at symbolic offset<=64: bits vs definition, lengths") => codec_step::<BE, false, Pi, _, 0>;
-    c03_r_pi_be (quick, "BE stream", "k in 0..=63, v<=2^64-2; write at offset 0 then read: value, consumption, sentinel") => codec_step::<BE, false, Pi, _, 1>;
-    c03_rt_pi_be (thorough, "BE stream", "k in 0..=63, v<=2^64-2; full round trip in place at symbolic offset<=64") => codec_step::<BE, false, Pi, _, 2>;
-    c03_w_pi_le (quick, "LE stream", "k in 0..=63, v<=2^64-2; write at symbolic offset<=64: bits vs definition, lengths") => codec_step::<LE, false, Pi, _, 0>;
-    c03_r_pi_le (quick, "LE stream", "k in 0..=63, v<=2^64-2; write at offset 0 then read: value, consumption, sentinel") => codec_step::<LE, false, Pi, _, 1>;
-    c03_rt_pi_le (thorough, "LE stream", "k in 0..=63, v<=2^64-2; full round trip in place at symbolic offset<=64") => codec_step::<LE, false, Pi, _, 2>;
-    c03_w_rice_be (quick, "BE stream", "k in 0..=63, any v with codeword <=128 bits; write at symbolic offset<=64: bits vs definition, lengths") => codec_step::<BE, false, Rice, _, 0>;
-    c03_r_rice_be (quick, "BE stream", "k in 0..=63, any v with codeword <=128 bits; write at offset 0 then read: value, consumption, sentinel") => codec_step::<BE, false, Rice, _, 1>;
-    c03_rt_rice_be (thorough, "BE stream", "k in 0..=63, any v with codeword <=128 bits; full round trip in place at symbolic offset<=64") => codec_step::<BE, false, Rice, _, 2>;
-    c03_w_rice_le (quick, "LE stream", "k in 0..=63, any v with codeword <=128 bits; write at symbolic offset<=64: bits vs definition, lengths") => codec_step::<LE, false, Rice, _, 0>;
-    c03_r_rice_le (quick, "LE stream", "k in 0..=63, any v with codeword <=128 bits; write at offset 0 then read: value, consumption, sentinel") => codec_step::<LE, false, Rice, _, 1>;
-    c03_rt_rice_le (thorough, "LE stream", "k in 0..=63, any v with codeword <=128 bits; full round trip in place at symbolic offset<=64") => codec_step::<LE, false, Rice, _, 2>;
-    c03_w_expgolomb_be (quick, "BE stream, gamma tables off", "k in 0..=63, v<=2^64-2; write at symbolic offset<=64: bits vs definition, lengths") => codec_step::<BE, false, ExpGolomb, _, 0>;
-    c03_r_expgolomb_be (quick, "BE stream, gamma tables off", "k in 0..=63, v<=2^64-2; write at offset 0 then read: value, consumption, sentinel") => codec_step::<BE, false, ExpGolomb, _, 1>;
-    c03_rt_expgolomb_be (thorough, "BE stream, gamma tables off", "k in 0..=63, v<=2^64-2; full round trip in place at symbolic offset<=64") => codec_step::<BE, false, ExpGolomb, _, 2>;
-    c03_w_expgolomb_le (quick, "LE stream, gamma tables off", "k in 0..=63, v<=2^64-2; write at symbolic offset<=64: bits vs definition, lengths") => codec_step::<LE, false, ExpGolomb, _, 0>;
-    c03_r_expgolomb_le (quick, "LE stream, gamma tables off", "k in 0..=63, v<=2^64-2; write at offset 0 then read: value, consumption, sentinel") => codec_step::<LE, false, ExpGolomb, _, 1>;
-    c03_rt_expgolomb_le (thorough, "LE stream, gamma tables off", "k in 0..=63, v<=2^64-2; full round trip in place at symbolic offset<=64") => codec_step::<LE, false, ExpGolomb, _, 2>;
-    c03_w_expgolomb_tab_be (quick, "BE stream, gamma tables on", "k in 0..=63, v<=2^64-2; write at symbolic offset<=64: bits vs definition, lengths") => codec_step::<BE, true, ExpGolomb, _, 0>;
-    c03_r_expgolomb_tab_be (quick, "BE stream, gamma tables on", "k in 0..=63, v<=2^64-2; write at offset 0 then read: value, consumption, sentinel") => codec_step::<BE, true, ExpGolomb, _, 1>;
-    c03_rt_expgolomb_tab_be (thorough, "BE stream, gamma tables on", "k in 0..=63, v<=2^64-2; full round trip in place at symbolic offset<=64") => codec_step::<BE, true, ExpGolomb, _, 2>;
-    c03_w_expgolomb_tab_le (quick, "LE stream, gamma tables on", "k in 0..=63, v<=2^64-2; write at symbolic offset<=64: bits vs definition, lengths") => codec_step::<LE, true, ExpGolomb, _, 0>;
-    c03_r_expgolomb_tab_le (quick, "LE stream, gamma tables on", "k in 0..=63, v<=2^64-2; write at offset 0 then read: value, consumption, sentinel") => codec_step::<LE, true, ExpGolomb, _, 1>;
-    c03_rt_expgolomb_tab_le (thorough, "LE stream, gamma tables on", "k in 0..=63, v<=2^64-2; full round trip in place at symbolic offset<=64") => codec_step::<LE, true, ExpGolomb, _, 2>;
-    c03_w_golomb_b64_be (quick, "BE stream", "b in 1..=64, any v with codeword <=128 bits; write at symbolic offset<=64: bits vs definition, lengths") => codec_step::<BE, false, Golomb<64, {u64::MAX}>, _, 0>;
-    c03_r_golomb_b64_be (quick, "BE stream", "b in 1..=64, any v with codeword <=128 bits; write at offset 0 then read: value, consumption, sentinel") => codec_step::<BE, false, Golomb<64, {u64::MAX}>, _, 1>;
-    c03_rt_golomb_b64_be (thorough, "BE stream", "b in 1..=64, any v with codeword <=128 bits; full round trip in place at symbolic offset<=64") => codec_step::<BE, false, Golomb<64, {u64::MAX}>, _, 2>;
-    c03_w_golomb_b64_le (quick, "LE stream", "b in 1..=64, any v with codeword <=128 bits; write at symbolic offset<=64: bits vs definition, lengths") => codec_step::<LE, false, Golomb<64, {u64::MAX}>, _, 0>;
-    c03_r_golomb_b64_le (quick, "LE stream", "b in 1..=64, any v with codeword <=128 bits; write at offset 0 then read: value, consumption, sentinel") => codec_step::<LE, false, Golomb<64, {u64::MAX}>, _, 1>;
-    c03_rt_golomb_b64_le (thorough, "LE stream", "b in 1..=64, any v with codeword <=128 bits; full round trip in place at symbolic offset<=64") => codec_step::<LE, false, Golomb<64, {u64::MAX}>, _, 2>;
-    c03_w_minbin_be (quick, "BE stream", "u in 1..2^64, v<u; write at symbolic offset<=64: bits vs definition, lengths") => codec_step::<BE, false, MinBin, _, 0>;
-    c03_r_minbin_be (quick, "BE stream", "u in 1..2^64, v<u; write at offset 0 then read: value, consumption, sentinel") => codec_step::<BE, false, MinBin, _, 1>;
-    c03_rt_minbin_be (thorough, "BE stream", "u in 1..2^64, v<u; full round trip in place at symbolic offset<=64") => codec_step::<BE, false, MinBin, _, 2>;
-    c03_w_minbin_le (quick, "LE stream", "u in 1..2^64, v<u; write at symbolic offset<=64: bits vs definition, lengths") => codec_step::<LE, false, MinBin, _, 0>;
-    c03_r_minbin_le (quick, "LE stream", "u in 1..2^64, v<u; write at offset 0 then read: value, consumption, sentinel") => codec_step::<LE, false, MinBin, _, 1>;
-    c03_rt_minbin_le (thorough, "LE stream", "u in 1..2^64, v<u; full round trip in place at symbolic offset<=64") => codec_step::<LE, false, MinBin, _, 2>;
+    c03_r_omega_le (quick, "LE stream", "v<=2^64-2; write at offset 0 then read: value, consumption, sentinel") => codec_step::<LE, false, Omega, _, 1, 0>;
+    #[kani::unwind(8)]
+    c03_w64_omega_le (thorough, "LE stream", "v<=2^64-2; write at symbolic offset 0..=64: bits vs definition, lengths") => codec_step::<LE, false, Omega, _, 0, 64>;
+    #[kani::unwind(8)]
+    c03_rt_omega_le (thorough, "LE stream", "v<=2^64-2; full round trip in place at symbolic offset 0..=64") => codec_step::<LE, false, Omega, _, 2, 64>;
+    c03_w_zeta_be (quick, "BE stream", "k in 1..=63, v<=2^64-2; definition checked where (h+1)k<=64; write at symbolic offset 0..=7 (every bit alignment): bits vs definition, lengths") => codec_step::<BE, false, Zeta<1, 63>, _, 0, 7>;
+    c03_r_zeta_be (quick, "BE stream", "k in 1..=63, v<=2^64-2; definition checked where (h+1)k<=64; write at offset 0 then read: value, consumption, sentinel") => codec_step::<BE, false, Zeta<1, 63>, _, 1, 0>;
+    c03_w64_zeta_be (thorough, "BE stream", "k in 1..=63, v<=2^64-2; definition checked where (h+1)k<=64; write at symbolic offset 0..=64: bits vs definition, lengths") => codec_step::<BE, false, Zeta<1, 63>, _, 0, 64>;
+    c03_rt_zeta_be (thorough, "BE stream", "k in 1..=63, v<=2^64-2; definition checked where (h+1)k<=64; full round trip in place at symbolic offset 0..=64") => codec_step::<BE, false, Zeta<1, 63>, _, 2, 64>;
+    c03_w_zeta_le (quick, "LE stream", "k in 1..=63, v<=2^64-2; definition checked where (h+1)k<=64; write at symbolic offset 0..=7 (every bit alignment): bits vs definition, lengths") => codec_step::<LE, false, Zeta<1, 63>, _, 0, 7>;
+    c03_r_zeta_le (quick, "LE stream", "k in 1..=63, v<=2^64-2; definition checked where (h+1)k<=64; write at offset 0 then read: value, consumption, sentinel") => codec_step::<LE, false, Zeta<1, 63>, _, 1, 0>;
+    c03_w64_zeta_le (thorough, "LE stream", "k in 1..=63, v<=2^64-2; definition checked where (h+1)k<=64; write at symbolic offset 0..=64: bits vs definition, lengths") => codec_step::<LE, false, Zeta<1, 63>, _, 0, 64>;
+    c03_rt_zeta_le (thorough, "LE stream", "k in 1..=63, v<=2^64-2; definition checked where (h+1)k<=64; full round trip in place at symbolic offset 0..=64") => codec_step::<LE, false, Zeta<1, 63>, _, 2, 64>;
+    c03_w_zeta3_be (quick, "BE stream, tables off", "v<=2^64-2; write at symbolic offset 0..=7 (every bit alignment): bits vs definition, lengths") => codec_step::<BE, false, Zeta3, _, 0, 7>;
+    c03_r_zeta3_be (quick, "BE stream, tables off", "v<=2^64-2; write at offset 0 then read: value, consumption, sentinel") => codec_step::<BE, false, Zeta3, _, 1, 0>;
+    c03_w64_zeta3_be (thorough, "BE stream, tables off", "v<=2^64-2; write at symbolic offset 0..=64: bits vs definition, lengths") => codec_step::<BE, false, Zeta3, _, 0, 64>;
+    c03_rt_zeta3_be (thorough, "BE stream, tables off", "v<=2^64-2; full round trip in place at symbolic offset 0..=64") => codec_step::<BE, false, Zeta3, _, 2, 64>;
+    c03_w_zeta3_le (quick, "LE stream, tables off", "v<=2^64-2; write at symbolic offset 0..=7 (every bit alignment): bits vs definition, lengths") => codec_step::<LE, false, Zeta3, _, 0, 7>;
+    c03_r_zeta3_le (quick, "LE stream, tables off", "v<=2^64-2; write at offset 0 then read: value, consumption, sentinel") => codec_step::<LE, false, Zeta3, _, 1, 0>;
+    c03_w64_zeta3_le (thorough, "LE stream, tables off", "v<=2^64-2; write at symbolic offset 0..=64: bits vs definition, lengths") => codec_step::<LE, false, Zeta3, _, 0, 64>;
+    c03_rt_zeta3_le (thorough, "LE stream, tables off", "v<=2^64-2; full round trip in place at symbolic offset 0..=64") => codec_step::<LE, false, Zeta3, _, 2, 64>;
+    c03_w_zeta3_tab_be (quick, "BE stream, tables on", "v<=2^64-2; write at symbolic offset 0..=7 (every bit alignment): bits vs definition, lengths") => codec_step::<BE, true, Zeta3, _, 0, 7>;
+    c03_r_zeta3_tab_be (quick, "BE stream, tables on", "v<=2^64-2; write at offset 0 then read: value, consumption, sentinel") => codec_step::<BE, true, Zeta3, _, 1, 0>;
+    c03_w64_zeta3_tab_be (thorough, "BE stream, tables on", "v<=2^64-2; write at symbolic offset 0..=64: bits vs definition, lengths") => codec_step::<BE, true, Zeta3, _, 0, 64>;
+    c03_rt_zeta3_tab_be (thorough, "BE stream, tables on", "v<=2^64-2; full round trip in place at symbolic offset 0..=64") => codec_step::<BE, true, Zeta3, _, 2, 64>;
+    c03_w_zeta3_tab_le (quick, "LE stream, tables on", "v<=2^64-2; write at symbolic offset 0..=7 (every bit alignment): bits vs definition, lengths") => codec_step::<LE, true, Zeta3, _, 0, 7>;
+    c03_r_zeta3_tab_le (quick, "LE stream, tables on", "v<=2^64-2; write at offset 0 then read: value, consumption, sentinel") => codec_step::<LE, true, Zeta3, _, 1, 0>;
+    c03_w64_zeta3_tab_le (thorough, "LE stream, tables on", "v<=2^64-2; write at symbolic offset 0..=64: bits vs definition, lengths") => codec_step::<LE, true, Zeta3, _, 0, 64>;
+    c03_rt_zeta3_tab_le (thorough, "LE stream, tables on", "v<=2^64-2; full round trip in place at symbolic offset 0..=64") => codec_step::<LE, true, Zeta3, _, 2, 64>;
+    c03_w_pi_be (quick, "BE stream", "k in 0..=63, v<=2^64-2; write at symbolic offset 0..=7 (every bit alignment): bits vs definition, lengths") => codec_step::<BE, false, Pi, _, 0, 7>;
+    c03_r_pi_be (quick, "BE stream", "k in 0..=63, v<=2^64-2; write at offset 0 then read: value, consumption, sentinel") => codec_step::<BE, false, Pi, _, 1, 0>;
+    c03_w64_pi_be (thorough, "BE stream", "k in 0..=63, v<=2^64-2; write at symbolic offset 0..=64: bits vs definition, lengths") => codec_step::<BE, false, Pi, _, 0, 64>;
+    c03_rt_pi_be (thorough, "BE stream", "k in 0..=63, v<=2^64-2; full round trip in place at symbolic offset 0..=64") => codec_step::<BE, false, Pi, _, 2, 64>;
+    c03_w_pi_le (quick, "LE stream", "k in 0..=63, v<=2^64-2; write at symbolic offset 0..=7 (every bit alignment): bits vs definition, lengths") => codec_step::<LE, false, Pi, _, 0, 7>;
+    c03_r_pi_le (quick, "LE stream", "k in 0..=63, v<=2^64-2; write at offset 0 then read: value, consumption, sentinel") => codec_step::<LE, false, Pi, _, 1, 0>;
+    c03_w64_pi_le (thorough, "LE stream", "k in 0..=63, v<=2^64-2; write at symbolic offset 0..=64: bits vs definition, lengths") => codec_step::<LE, false, Pi, _, 0, 64>;
+    c03_rt_pi_le (thorough, "LE stream", "k in 0..=63, v<=2^64-2; full round trip in place at symbolic offset 0..=64") => codec_step::<LE, false, Pi, _, 2, 64>;
+    c03_w_rice_be (quick, "BE stream", "k in 0..=63, any v with v>>k<=127; write at symbolic offset 0..=7 (every bit alignment): bits vs definition, lengths") => codec_step::<BE, false, Rice, _, 0, 7>;
+    c03_r_rice_be (quick, "BE stream", "k in 0..=63, any v with v>>k<=127; write at offset 0 then read: value, consumption, sentinel") => codec_step::<BE, false, Rice, _, 1, 0>;
+    c03_w64_rice_be (thorough, "BE stream", "k in 0..=63, any v with v>>k<=127; write at symbolic offset 0..=64: bits vs definition, lengths") => codec_step::<BE, false, Rice, _, 0, 64>;
+    c03_rt_rice_be (thorough, "BE stream", "k in 0..=63, any v with v>>k<=127; full round trip in place at symbolic offset 0..=64") => codec_step::<BE, false, Rice, _, 2, 64>;
+    c03_w_rice_le (quick, "LE stream", "k in 0..=63, any v with v>>k<=127; write at symbolic offset 0..=7 (every bit alignment): bits vs definition, lengths") => codec_step::<LE, false, Rice, _, 0, 7>;
+    c03_r_rice_le (quick, "LE stream", "k in 0..=63, any v with v>>k<=127; write at offset 0 then read: value, consumption, sentinel") => codec_step::<LE, false, Rice, _, 1, 0>;
+    c03_w64_rice_le (thorough, "LE stream", "k in 0..=63, any v with v>>k<=127; write at symbolic offset 0..=64: bits vs definition, lengths") => codec_step::<LE, false, Rice, _, 0, 64>;
+    c03_rt_rice_le (thorough, "LE stream", "k in 0..=63, any v with v>>k<=127; full round trip in place at symbolic offset 0..=64") => codec_step::<LE, false, Rice, _, 2, 64>;
+    c03_w_expgolomb_be (quick, "BE stream, gamma tables off", "k in 0..=63, v<=2^64-2; write at symbolic offset 0..=7 (every bit alignment): bits vs definition, lengths") => codec_step::<BE, false, ExpGolomb, _, 0, 7>;
+    c03_r_expgolomb_be (quick, "BE stream, gamma tables off", "k in 0..=63, v<=2^64-2; write at offset 0 then read: value, consumption, sentinel") => codec_step::<BE, false, ExpGolomb, _, 1, 0>;
+    c03_w64_expgolomb_be (thorough, "BE stream, gamma tables off", "k in 0..=63, v<=2^64-2; write at symbolic offset 0..=64: bits vs definition, lengths") => codec_step::<BE, false, ExpGolomb, _, 0, 64>;
+    c03_rt_expgolomb_be (thorough, "BE stream, gamma tables off", "k in 0..=63, v<=2^64-2; full round trip in place at symbolic offset 0..=64") => codec_step::<BE, false, ExpGolomb, _, 2, 64>;
+    c03_w_expgolomb_le (quick, "LE stream, gamma tables off", "k in 0..=63, v<=2^64-2; write at symbolic offset 0..=7 (every bit alignment): bits vs definition, lengths") => codec_step::<LE, false, ExpGolomb, _, 0, 7>;
+    c03_r_expgolomb_le (quick, "LE stream, gamma tables off", "k in 0..=63, v<=2^64-2; write at offset 0 then read: value, consumption, sentinel") => codec_step::<LE, false, ExpGolomb, _, 1, 0>;
+    c03_w64_expgolomb_le (thorough, "LE stream, gamma tables off", "k in 0..=63, v<=2^64-2; write at symbolic offset 0..=64: bits vs definition, lengths") => codec_step::<LE, false, ExpGolomb, _, 0, 64>;
+    c03_rt_expgolomb_le (thorough, "LE stream, gamma tables off", "k in 0..=63, v<=2^64-2; full round trip in place at symbolic offset 0..=64") => codec_step::<LE, false, ExpGolomb, _, 2, 64>;
+    c03_w_expgolomb_tab_be (quick, "BE stream, gamma tables on", "k in 0..=63, v<=2^64-2; write at symbolic offset 0..=7 (every bit alignment): bits vs definition, lengths") => codec_step::<BE, true, ExpGolomb, _, 0, 7>;
+    c03_r_expgolomb_tab_be (quick, "BE stream, gamma tables on", "k in 0..=63, v<=2^64-2; write at offset 0 then read: value, consumption, sentinel") => codec_step::<BE, true, ExpGolomb, _, 1, 0>;
+    c03_w64_expgolomb_tab_be (thorough, "BE stream, gamma tables on", "k in 0..=63, v<=2^64-2; write at symbolic offset 0..=64: bits vs definition, lengths") => codec_step::<BE, true, ExpGolomb, _, 0, 64>;
+    c03_rt_expgolomb_tab_be (thorough, "BE stream, gamma tables on", "k in 0..=63, v<=2^64-2; full round trip in place at symbolic offset 0..=64") => codec_step::<BE, true, ExpGolomb, _, 2, 64>;
+    c03_w_expgolomb_tab_le (quick, "LE stream, gamma tables on", "k in 0..=63, v<=2^64-2; write at symbolic offset 0..=7 (every bit alignment): bits vs definition, lengths") => codec_step::<LE, true, ExpGolomb, _, 0, 7>;
+    c03_r_expgolomb_tab_le (quick, "LE stream, gamma tables on", "k in 0..=63, v<=2^64-2; write at offset 0 then read: value, consumption, sentinel") => codec_step::<LE, true, ExpGolomb, _, 1, 0>;
+    c03_w64_expgolomb_tab_le (thorough, "LE stream, gamma tables on", "k in 0..=63, v<=2^64-2; write at symbolic offset 0..=64: bits vs definition, lengths") => codec_step::<LE, true, ExpGolomb, _, 0, 64>;
+    c03_rt_expgolomb_tab_le (thorough, "LE stream, gamma tables on", "k in 0..=63, v<=2^64-2; full round trip in place at symbolic offset 0..=64") => codec_step::<LE, true, ExpGolomb, _, 2, 64>;
+    c03_w_golomb_be (quick, "BE stream", "b in 1..=64, any v<120b; write at symbolic offset 0..=7 (every bit alignment): bits vs definition, lengths") => codec_step::<BE, false, Golomb<64, {u64::MAX}>, _, 0, 7>;
+    c03_r_golomb_be (quick, "BE stream", "b in 1..=64, any v<120b; write at offset 0 then read: value, consumption, sentinel") => codec_step::<BE, false, Golomb<64, {u64::MAX}>, _, 1, 0>;
+    c03_w64_golomb_be (thorough, "BE stream", "b in 1..=64, any v<120b; write at symbolic offset 0..=64: bits vs definition, lengths") => codec_step::<BE, false, Golomb<64, {u64::MAX}>, _, 0, 64>;
+    c03_rt_golomb_be (thorough, "BE stream", "b in 1..=64, any v<120b; full round trip in place at symbolic offset 0..=64") => codec_step::<BE, false, Golomb<64, {u64::MAX}>, _, 2, 64>;
+    c03_w_golomb_le (quick, "LE stream", "b in 1..=64, any v<120b; write at symbolic offset 0..=7 (every bit alignment): bits vs definition, lengths") => codec_step::<LE, false, Golomb<64, {u64::MAX}>, _, 0, 7>;
+    c03_r_golomb_le (quick, "LE stream", "b in 1..=64, any v<120b; write at offset 0 then read: value, consumption, sentinel") => codec_step::<LE, false, Golomb<64, {u64::MAX}>, _, 1, 0>;
+    c03_w64_golomb_le (thorough, "LE stream", "b in 1..=64, any v<120b; write at symbolic offset 0..=64: bits vs definition, lengths") => codec_step::<LE, false, Golomb<64, {u64::MAX}>, _, 0, 64>;
+    c03_rt_golomb_le (thorough, "LE stream", "b in 1..=64, any v<120b; full round trip in place at symbolic offset 0..=64") => codec_step::<LE, false, Golomb<64, {u64::MAX}>, _, 2, 64>;
+    c03_w_minbin_be (quick, "BE stream", "u in 1..2^64, v<u; write at symbolic offset 0..=7 (every bit alignment): bits vs definition, lengths") => codec_step::<BE, false, MinBin, _, 0, 7>;
+    c03_r_minbin_be (quick, "BE stream", "u in 1..2^64, v<u; write at offset 0 then read: value, consumption, sentinel") => codec_step::<BE, false, MinBin, _, 1, 0>;
+    c03_w64_minbin_be (thorough, "BE stream", "u in 1..2^64, v<u; write at symbolic offset 0..=64: bits vs definition, lengths") => codec_step::<BE, false, MinBin, _, 0, 64>;
+    c03_rt_minbin_be (thorough, "BE stream", "u in 1..2^64, v<u; full round trip in place at symbolic offset 0..=64") => codec_step::<BE, false, MinBin, _, 2, 64>;
+    c03_w_minbin_le (quick, "LE stream", "u in 1..2^64, v<u; write at symbolic offset 0..=7 (every bit alignment): bits vs definition, lengths") => codec_step::<LE, false, MinBin, _, 0, 7>;
+    c03_r_minbin_le (quick, "LE stream", "u in 1..2^64, v<u; write at offset 0 then read: value, consumption, sentinel") => codec_step::<LE, false, MinBin, _, 1, 0>;
+    c03_w64_minbin_le (thorough, "LE stream", "u in 1..2^64, v<u; write at symbolic offset 0..=64: bits vs definition, lengths") => codec_step::<LE, false, MinBin, _, 0, 64>;
+    c03_rt_minbin_le (thorough, "LE stream", "u in 1..2^64, v<u; full round trip in place at symbolic offset 0..=64") => codec_step::<LE, false, MinBin, _, 2, 64>;
     #[kani::unwind(12)]
-    c03_w_vbytebe_be (quick, "BE stream", "any u64 v; write at symbolic offset<=64: bits vs definition, lengths") => codec_step::<BE, false, VByteBe, _, 0>;
+    c03_w_vbytebe_be (quick, "BE stream", "any u64 v; write at symbolic offset 0..=7 (every bit alignment): bits vs definition, lengths") => codec_step::<BE, false, VByteBe, _, 0, 7>;
     #[kani::unwind(12)]
-    c03_r_vbytebe_be (quick, "BE stream", "any u64 v; write at offset 0 then read: value, consumption, sentinel") => codec_step::<BE, false, VByteBe, _, 1>;
+    c03_r_vbytebe_be (quick, "BE stream", "any u64 v; write at offset 0 then read: value, consumption, sentinel") => codec_step::<BE, false, VByteBe, _, 1, 0>;
     #[kani::unwind(12)]
-    c03_rt_vbytebe_be (thorough, "BE stream", "any u64 v; full round trip in place at symbolic offset<=64") => codec_step::<BE, false, VByteBe, _, 2>;
+    c03_w64_vbytebe_be (thorough, "BE stream", "any u64 v; write at symbolic offset 0..=64: bits vs definition, lengths") => codec_step::<BE, false, VByteBe, _, 0, 64>;
     #[kani::unwind(12)]
-    c03_w_vbytebe_le (quick, "LE stream", "any u64 v; write at symbolic offset<=64: bits vs definition, lengths") => codec_step::<LE, false, VByteBe, _, 0>;
+    c03_rt_vbytebe_be (thorough, "BE stream", "any u64 v; full round trip in place at symbolic offset 0..=64") => codec_step::<BE, false, VByteBe, _, 2, 64>;
     #[kani::unwind(12)]
-    c03_r_vbytebe_le (quick, "LE stream", "any u64 v; write at offset 0 then read: value, consumption, sentinel") => codec_step::<LE, false, VByteBe, _, 1>;
+    c03_w_vbytebe_le (quick, "LE stream", "any u64 v; write at symbolic offset 0..=7 (every bit alignment): bits vs definition, lengths") => codec_step::<LE, false, VByteBe, _, 0, 7>;
     #[kani::unwind(12)]
-    c03_rt_vbytebe_le (thorough, "LE stream", "any u64 v; full round trip in place at symbolic offset<=64") => codec_step::<LE, false, VByteBe, _, 2>;
+    c03_r_vbytebe_le (quick, "LE stream", "any u64 v; write at offset 0 then read: value, consumption, sentinel") => codec_step::<LE, false, VByteBe, _, 1, 0>;
     #[kani::unwind(12)]
-    c03_w_vbytele_be (quick, "BE stream", "any u64 v; write at symbolic offset<=64: bits vs definition, lengths") => codec_step::<BE, false, VByteLe, _, 0>;
+    c03_w64_vbytebe_le (thorough, "LE stream", "any u64 v; write at symbolic offset 0..=64: bits vs definition, lengths") => codec_step::<LE, false, VByteBe, _, 0, 64>;
     #[kani::unwind(12)]
-    c03_r_vbytele_be (quick, "BE stream", "any u64 v; write at offset 0 then read: value, consumption, sentinel") => codec_step::<BE, false, VByteLe, _, 1>;
+    c03_rt_vbytebe_le (thorough, "LE stream", "any u64 v; full round trip in place at symbolic offset 0..=64") => codec_step::<LE, false, VByteBe, _, 2, 64>;
     #[kani::unwind(12)]
-    c03_rt_vbytele_be (thorough, "BE stream", "any u64 v; full round trip in place at symbolic offset<=64") => codec_step::<BE, false, VByteLe, _, 2>;
+    c03_w_vbytele_be (quick, "BE stream", "any u64 v; write at symbolic offset 0..=7 (every bit alignment): bits vs definition, lengths") => codec_step::<BE, false, VByteLe, _, 0, 7>;
     #[kani::unwind(12)]
-    c03_w_vbytele_le (quick, "LE stream", "any u64 v; write at symbolic offset<=64: bits vs definition, lengths") => codec_step::<LE, false, VByteLe, _, 0>;
+    c03_r_vbytele_be (quick, "BE stream", "any u64 v; write at offset 0 then read: value, consumption, sentinel") => codec_step::<BE, false, VByteLe, _, 1, 0>;
     #[kani::unwind(12)]
-    c03_r_vbytele_le (quick, "LE stream", "any u64 v; write at offset 0 then read: value, consumption, sentinel") => codec_step::<LE, false, VByteLe, _, 1>;
+    c03_w64_vbytele_be (thorough, "BE stream", "any u64 v; write at symbolic offset 0..=64: bits vs definition, lengths") => codec_step::<BE, false, VByteLe, _, 0, 64>;
     #[kani::unwind(12)]
-    c03_rt_vbytele_le (thorough, "LE stream", "any u64 v; full round trip in place at symbolic offset<=64") => codec_step::<LE, false, VByteLe, _, 2>;
-    c03_w_golomb_b4096_be (thorough, "BE stream", "b in 1..=4096, v<2^20 with codeword <=128 bits") => codec_step::<BE, false, Golomb<4096, 1048575>, _, 0>;
-    c03_r_golomb_b4096_be (thorough, "BE stream", "b in 1..=4096, v<2^20 with codeword <=128 bits") => codec_step::<BE, false, Golomb<4096, 1048575>, _, 1>;
-    c03_w_golomb_b4096_le (thorough, "LE stream", "b in 1..=4096, v<2^20 with codeword <=128 bits") => codec_step::<LE, false, Golomb<4096, 1048575>, _, 0>;
-    c03_r_golomb_b4096_le (thorough, "LE stream", "b in 1..=4096, v<2^20 with codeword <=128 bits") => codec_step::<LE, false, Golomb<4096, 1048575>, _, 1>;
-    c03_w_zetax1_2_be (thorough, "BE stream", "k in 1..=2, v<=2^64-2; write at symbolic offset") => codec_step::<BE, false, Zeta<1, 2>, _, 0>;
-    c03_w_zetax3_6_be (thorough, "BE stream", "k in 3..=6, v<=2^64-2; write at symbolic offset") => codec_step::<BE, false, Zeta<3, 6>, _, 0>;
-    c03_w_zetax7_63_be (thorough, "BE stream", "k in 7..=63, v<=2^64-2; write at symbolic offset") => codec_step::<BE, false, Zeta<7, 63>, _, 0>;
-    c03_w_zetax1_4_be (thorough, "BE stream", "k in 1..=4, v<=2^64-2; write at symbolic offset") => codec_step::<BE, false, Zeta<1, 4>, _, 0>;
-    c03_w_zetax5_63_be (thorough, "BE stream", "k in 5..=63, v<=2^64-2; write at symbolic offset") => codec_step::<BE, false, Zeta<5, 63>, _, 0>;
-    c03_w_golomb_b16_be (thorough, "BE stream", "b in 1..=16, v<120b; write at symbolic offset") => codec_step::<BE, false, Golomb<16, {u64::MAX}>, _, 0>;
-    c03_w_zetax1_2_le (thorough, "LE stream", "k in 1..=2, v<=2^64-2; write at symbolic offset") => codec_step::<LE, false, Zeta<1, 2>, _, 0>;
-    c03_w_zetax3_6_le (thorough, "LE stream", "k in 3..=6, v<=2^64-2; write at symbolic offset") => codec_step::<LE, false, Zeta<3, 6>, _, 0>;
-    c03_w_zetax7_63_le (thorough, "LE stream", "k in 7..=63, v<=2^64-2; write at symbolic offset") => codec_step::<LE, false, Zeta<7, 63>, _, 0>;
-    c03_w_zetax1_4_le (thorough, "LE stream", "k in 1..=4, v<=2^64-2; write at symbolic offset") => codec_step::<LE, false, Zeta<1, 4>, _, 0>;
-    c03_w_zetax5_63_le (thorough, "LE stream", "k in 5..=63, v<=2^64-2; write at symbolic offset") => codec_step::<LE, false, Zeta<5, 63>, _, 0>;
-    c03_w_golomb_b16_le (thorough, "LE stream", "b in 1..=16, v<120b; write at symbolic offset") => codec_step::<LE, false, Golomb<16, {u64::MAX}>, _, 0>;
+    c03_rt_vbytele_be (thorough, "BE stream", "any u64 v; full round trip in place at symbolic offset 0..=64") => codec_step::<BE, false, VByteLe, _, 2, 64>;
+    #[kani::unwind(12)]
+    c03_w_vbytele_le (quick, "LE stream", "any u64 v; write at symbolic offset 0..=7 (every bit alignment): bits vs definition, lengths") => codec_step::<LE, false, VByteLe, _, 0, 7>;
+    #[kani::unwind(12)]
+    c03_r_vbytele_le (quick, "LE stream", "any u64 v; write at offset 0 then read: value, consumption, sentinel") => codec_step::<LE, false, VByteLe, _, 1, 0>;
+    #[kani::unwind(12)]
+    c03_w64_vbytele_le (thorough, "LE stream", "any u64 v; write at symbolic offset 0..=64: bits vs definition, lengths") => codec_step::<LE, false, VByteLe, _, 0, 64>;
+    #[kani::unwind(12)]
+    c03_rt_vbytele_le (thorough, "LE stream", "any u64 v; full round trip in place at symbolic offset 0..=64") => codec_step::<LE, false, VByteLe, _, 2, 64>;
+    c03_w_golomb_b4096_be (thorough, "BE stream", "b in 1..=4096, v<2^20 and v<120b") => codec_step::<BE, false, Golomb<4096, 1048575>, _, 0, 7>;
+    c03_r_golomb_b4096_be (thorough, "BE stream", "b in 1..=4096, v<2^20 and v<120b") => codec_step::<BE, false, Golomb<4096, 1048575>, _, 1, 0>;
+    c03_w_golomb_b4096_le (thorough, "LE stream", "b in 1..=4096, v<2^20 and v<120b") => codec_step::<LE, false, Golomb<4096, 1048575>, _, 0, 7>;
+    c03_r_golomb_b4096_le (thorough, "LE stream", "b in 1..=4096, v<2^20 and v<120b") => codec_step::<LE, false, Golomb<4096, 1048575>, _, 1, 0>;
 }
